@@ -31,7 +31,9 @@ def encode_msg_frame(action, specifier=None, data=None):
     action (and optional specifier) are str strings,
     data may be an json-yfied python object"""
     msg = (action, specifier or '', '' if data is None else json.dumps(data))
-    return ' '.join(msg).strip().encode('utf-8') + EOL
+    # remove only the blanks joining empty items: strip() would also remove
+    # (unicode) white space belonging to the specifier
+    return ' '.join(msg).rstrip(' ').encode('utf-8') + EOL
 
 
 def get_msg(_bytes):
